@@ -27,7 +27,8 @@ let c15_addr (s : string) =
     if s.[0] = '4' && String.length h = 8 then LA4 (n_of_hexstr h)
     else if s.[0] = '6' && String.length h = 32 then LA6 (n_of_hexstr h)
     else failwith ("bad addr " ^ s)
-  | _ -> if s = "none" then LANone else failwith ("bad addr " ^ s)
+  | _ -> if String.length s >= 4 && String.sub s 0 4 = "none" then LANone   (* none, none2, ...: peers without an address *)
+         else failwith ("bad addr " ^ s)
 let c15_fmt_addr a : string =
   match a with LA4 x -> "4-" ^ hex_of_n 8 x | LA6 x -> "6-" ^ hex_of_n 32 x | LANone -> "none"
 
@@ -265,9 +266,10 @@ let run_admit (parts : string list) : string =
     | OAccepted -> "ACCEPT" | OConnClosed -> "CLOSED" | OAnswered -> "ANS" | ORefused -> "REFUSED"
     | O503 -> "503" | OStreamClosed -> "SCLOSED" | OBadRequest -> "400" in
   let do_step e = let (r', o) = listener_step !r Z0 e in r := r'; o in
-  let query l a =
+  let query l araw =
     (* connection-oriented listeners: the connection cost is charged when the client's connection is opened *)
-    let key = (l, c15_fmt_addr a) in
+    let a = c15_addr araw in
+    let key = (l, araw) in
     let need_conn = (match l with LmTcp | LQuic -> not (List.mem key !conns) | _ -> false) in
     let ok = if need_conn then (match do_step (AConn (l, a)) with
       | OAccepted -> conns := key :: !conns; true | _ -> false) else true in
@@ -275,9 +277,9 @@ let run_admit (parts : string list) : string =
     else out := name (do_step (AQuery (l, a, false))) :: !out in
   List.iter (fun st ->
     match String.split_on_char ':' st with
-    | ["uq"; a] -> query LmUdp (c15_addr a)
-    | ["tq"; a] -> query LmTcp (c15_addr a)
-    | ["qq"; a] -> query LQuic (c15_addr a)
+    | ["uq"; a] -> query LmUdp a
+    | ["tq"; a] -> query LmTcp a
+    | ["qq"; a] -> query LQuic a
     | ["hc"; a] -> out := name (do_step (AConn (LmHttp, c15_addr a))) :: !out
     | ["hq"; a] -> out := name (do_step (AQuery (LmHttp, c15_addr a, false))) :: !out
     | ["hx"; _] -> out := name (do_step (ABadAddr LmHttp)) :: !out
